@@ -15,12 +15,15 @@ func c07Scenarios(tier string) []*Scenario {
 	var out []*Scenario
 	type variant struct {
 		cached, sub, sanitize, loop, twoApps, twice bool
-		shards uint
+		shards                                      uint
+		noReacquire                                 bool // the application thread ends right after Close
 	}
 	vs := []variant{
 		{cached: true, shards: 1},
 		{cached: false, shards: 1, sanitize: true},
 		{cached: true, shards: 1, loop: true},
+		{cached: true, shards: 1, noReacquire: true},
+		{cached: false, shards: 1, noReacquire: true},
 	}
 	if tier == "thorough" {
 		vs = append(vs,
@@ -35,6 +38,9 @@ func c07Scenarios(tier string) []*Scenario {
 	for _, v := range vs {
 		v := v
 		name := fmt.Sprintf("R-cycle-vs-pass-%s-sub=%v-sanitize=%v-loop=%v-two=%v-twice=%v-shards=%d", b2s(v.cached), v.sub, v.sanitize, v.loop, v.twoApps, v.twice, v.shards)
+		if v.noReacquire {
+			name += "-no-reacquire"
+		}
 		sc := &Scenario{Property: "C07", Name: name, AllowLeak: true}
 		if v.loop {
 			sc.Ticks = tierInt(tier, 1, 2)
@@ -76,6 +82,9 @@ func c07Scenarios(tier string) []*Scenario {
 					s.Counter("c").Inc(first)
 					oc.Inc(first)
 					closeScope(s)
+					if v.noReacquire {
+						return
+					}
 					if v.twice {
 						closeScope(s)
 					}
@@ -132,6 +141,9 @@ func c07Scenarios(tier string) []*Scenario {
 				}
 			}
 			tot := int64(1 + 2 + 4)
+			if v.noReacquire {
+				tot = 1 + 4
+			}
 			otot := int64(1)
 			if v.twoApps {
 				tot += 8 + 16
